@@ -198,6 +198,39 @@ def with_namesake_app(scn):
     return n
 
 
+def with_redeclared_fields(scn):
+    """A later block of a re-opened tuple or table declares one of the type's earlier fields again, with the same
+    type (a wrapped one if there is one): the model is unchanged and the field has one more location."""
+    import copy
+    opens = ("app", "type", "ep", "event", "sub", "rest", "method", "block", "oneof", "choice")
+    n = 0
+    for s in scn:
+        out, seen, stack, cur_app = [], {}, [], None
+        for x in s["decls"]:
+            out.append(x)
+            k = x.get("k")
+            if k == "app":
+                cur_app = x["name"]
+            if k == "type":
+                key = (cur_app, x["name"])
+                stack.append(key)
+                prev = seen.get(key) or []
+                if prev and x.get("kind") in ("tuple", "relation"):
+                    cand = [f for f in prev if f["sh"].get("wrap")] or prev
+                    again = copy.deepcopy(cand[0])
+                    again["pos"] = {"file": "", "line": 0, "col": 0}
+                    out.append(again)
+                    n += 1
+            elif k in opens:
+                stack.append(None)
+            elif k == "field" and stack and stack[-1] is not None:
+                seen.setdefault(stack[-1], []).append(x)
+            elif k == "end" and stack:
+                stack.pop()
+        s["decls"] = out
+    return n
+
+
 def check_c08(ctx):
     core.build_vh(ctx)
     mc = _mc(ctx)
@@ -207,11 +240,12 @@ def check_c08(ctx):
     for s in scn2:
         s["id"] += len(scn)
     scn = scn + scn2
+    nredecl = with_redeclared_fields(scn)
     events, prints, nev = run_programs(ctx, scn)
     _judge(ctx, "C08", scn, events, prints, lambda n: n.startswith("Loc") or n in ("Rejected",))
     nloc = sum(len(e["facts"]) for e in events if e["e"] == "locs")
     cov = {"states": mc.distinct, "transitions": mc.generated, "traces_validated_against_impl": len(scn),
-           "trace_events": nev, "locations_compared": nloc,
+           "trace_events": nev, "locations_compared": nloc, "fields_declared_again_in_a_reopened_type": nredecl,
            "samples": [[e for e in events if e["e"] == "locs"][0]["facts"][:8]] if scn else []}
     return core.finish(ctx, "model_checking", cov, ASSUME + [
         "tracked elements: applications, types, fields, endpoints (simple, REST method, event, subscription) and statements; "
